@@ -93,6 +93,25 @@ func c18Conf(c *fw.Case) (o fw.Outcome) {
 	for i := range cfg.GnbID {
 		cfg.GnbID[i] &= 0x7f
 	}
+	// strings made of characters that shells, environment expansion, printf-style formatting and YAML itself treat
+	// specially: a configuration VALUE is data, whatever it looks like (the file is written with proper YAML quoting)
+	if r.Intn(2) == 0 {
+		toks := []string{"$A", "${HOME}", "$1", "$$", "$HOME", "${}", "%s", "%d", "%%", "%!", "~", "#x", " #y", ": ", "{a}", "[b]", "*c", "&d", "!e", "|", ">", "@", "`id`", "\\n", "\\x41", "''", "\"", "<<", "?", "-", "null", "0x10", "1e3", "007", "gNB"}
+		name := ""
+		for i, n := 0, 1+r.Intn(4); i < n; i++ {
+			name += toks[r.Intn(len(toks))]
+		}
+		cfg.GnbName = name
+		o.Tag("metacharacters-in-name")
+		if r.Intn(2) == 0 {
+			cfg.GnbID = []byte(pick(r, "\x00$A", "$A1", "${X}", "%s\x01", "$$\x7f", "~\x00\x01", "#\x01\x02", "*a\x00"))
+			o.Tag("metacharacters-in-gnb-id")
+		}
+		if r.Intn(3) == 0 {
+			cfg.DLIface = pick(r, "eth$0", "if%d", "a#b", "x:y", "e{0}")
+		}
+		cfg.QuoteStyle = pick(r, 0, 1)
+	}
 	y := cfg.YAML()
 	// shuffle the key lines and sprinkle comments: YAML mappings are unordered
 	lines := strings.Split(strings.TrimRight(y, "\n"), "\n")
